@@ -181,10 +181,10 @@ func deployCases(r *rng.R, n int) []fw.Case {
 		add(0, []genTask{{true, "direct", "h1", "ok"}, {false, "basic", "h2", l}})
 		add(0, []genTask{{true, "direct", "h1", l}, {false, "basic", "h2", "ok"}})
 	}
-	add(0, nil)                                       // no role at all
-	add(1, nil)                                       // call roles only: DEPLOY passes, CONFIGURE has nobody to talk to
-	add(1, []genTask{{true, "direct", "h1", "ok"}})   // a call role next to a task
-	add(0, []genTask{{false, "direct", "h1", "ok"}})  // only a non-critical task
+	add(0, nil)                                        // no role at all
+	add(1, nil)                                        // call roles only: DEPLOY passes, CONFIGURE has nobody to talk to
+	add(1, []genTask{{true, "direct", "h1", "ok"}})    // a call role next to a task
+	add(0, []genTask{{false, "direct", "h1", "ok"}})   // only a non-critical task
 	add(0, []genTask{{false, "direct", "h1", "dies"}}) // …which fails to start
 	for len(cs) < n {
 		nt := r.Range(1, 4)
@@ -198,8 +198,9 @@ func deployCases(r *rng.R, n int) []fw.Case {
 	return cs
 }
 
-// randomWalk: 0..4 tasks, a legal walk of up to maxSteps requests with fast outcomes and idle deaths of non-critical
+// randomWalk: 1..4 tasks, a legal walk of up to maxSteps requests with fast outcomes and idle deaths of non-critical
 // tasks; it ends at the first step in which a critical task is scripted to fail (the environment leaves the graph).
+// When every task has died the walk goes on with commands that have no target (tag zero-target).
 func randomWalk(r *rng.R, maxSteps int) fw.Case {
 	nt := r.Range(1, 4)
 	tasks := randTasks(r, nt)
@@ -212,6 +213,7 @@ func randomWalk(r *rng.R, maxSteps int) fw.Case {
 	}
 	tags := []string{"walk", fmt.Sprintf("n=%d", nt)}
 	ns := r.Range(1, maxSteps)
+	zeroTagged := false
 	for len(steps) < ns {
 		if len(steps) > 0 && r.P(1, 8) {
 			// idle death of some non-critical task
@@ -252,12 +254,49 @@ func randomWalk(r *rng.R, maxSteps int) fw.Case {
 			s = append(s, o)
 		}
 		steps = append(steps, s)
-		if critFail || nAlive == 0 {
-			break // the model and the core both stop here (or hang): nothing more to learn from this world
+		if critFail {
+			break // the model and the core both stop here: nothing more to learn from this world
+		}
+		if nAlive == 0 && !zeroTagged {
+			// the walk goes on: commands to nobody succeed at once (the repaired zero-target behaviour)
+			tags = append(tags, "zero-target")
+			zeroTagged = true
 		}
 		state = map[string]string{"CONFIGURE": "CONFIGURED", "START_ACTIVITY": "RUNNING", "STOP_ACTIVITY": "CONFIGURED", "RESET": "DEPLOYED"}[ev]
 	}
 	return fw.Case{Input: build(0, tasks, steps), Tags: tags}
+}
+
+// repairedCases: inputs in the four corners that were repaired in /repo (notes/C02.fix-{1,2,3}.patch); they are always
+// run, so that a return of one of the defects is a concrete failing input. (The single-target and failed-request corners
+// are also covered by exhaustiveFast: n=1 non-critical, and every critical failure.)
+func repairedCases() []fw.Case {
+	nc := genTask{false, "direct", "h1", "ok"}
+	mk := func(id string, calls int, tasks []genTask, steps ...[]string) fw.Case {
+		return fw.Case{Input: build(calls, tasks, steps), Tags: []string{"repaired", "repaired:" + id}}
+	}
+	return []fw.Case{
+		// nobody left to command: every transition of the cycle succeeds at once, CONFIGURE included
+		mk("zero_targets_error", 0, []genTask{nc}, []string{"CONFIGURE", "ok"}, []string{"DIE", "dies"}, []string{"START_ACTIVITY", "-"},
+			[]string{"STOP_ACTIVITY", "-"}, []string{"RESET", "-"}, []string{"CONFIGURE", "-"}, []string{"START_ACTIVITY", "-"}),
+		mk("zero_targets_error", 0, []genTask{nc, {false, "basic", "h2", "ok"}}, []string{"CONFIGURE", "ok", "ok"}, []string{"START_ACTIVITY", "ok", "ok"},
+			[]string{"DIE", "dies", "dies"}, []string{"STOP_ACTIVITY", "-", "-"}, []string{"RESET", "-", "-"}),
+		mk("configure_nothing_hangs", 0, []genTask{nc}, []string{"CONFIGURE", "ok"}, []string{"START_ACTIVITY", "ok"}, []string{"STOP_ACTIVITY", "ok"},
+			[]string{"RESET", "ok"}, []string{"DIE", "dies"}, []string{"CONFIGURE", "-"}, []string{"RESET", "-"}),
+		// call roles only: NewEnvironment's CONFIGURE has nobody to talk to
+		mk("configure_nothing_hangs", 2, nil, []string{"CONFIGURE"}, []string{"START_ACTIVITY"}, []string{"STOP_ACTIVITY"}, []string{"RESET"}, []string{"CONFIGURE"}),
+		// a lone non-critical task that fails is only logged, at every position; the environment goes on
+		mk("single_target_ignores_critical", 0, []genTask{nc}, []string{"CONFIGURE", "stay"}, []string{"START_ACTIVITY", "err"},
+			[]string{"STOP_ACTIVITY", "stay"}, []string{"RESET", "err"}, []string{"CONFIGURE", "err"}),
+		// one target left after an idle death, non-critical, fails
+		mk("single_target_ignores_critical", 0, []genTask{nc, {false, "fairmq", "h2", "ok"}}, []string{"CONFIGURE", "ok", "ok"}, []string{"DIE", "-", "dies"},
+			[]string{"START_ACTIVITY", "stay", "-"}, []string{"STOP_ACTIVITY", "ok", "-"}),
+		// a failed request answers with an error status: single target, multi target
+		mk("rpc_ok_on_failed_transition", 0, []genTask{{true, "direct", "h1", "ok"}, {false, "basic", "h1", "ok"}}, []string{"CONFIGURE", "ok", "ok"},
+			[]string{"START_ACTIVITY", "err", "ok"}),
+		mk("rpc_ok_on_failed_transition", 0, []genTask{{true, "basic", "h2", "ok"}}, []string{"CONFIGURE", "ok"}, []string{"START_ACTIVITY", "ok"},
+			[]string{"STOP_ACTIVITY", "stay"}),
+	}
 }
 
 func generate(tier string, r *rng.R) []fw.Case {
@@ -269,6 +308,7 @@ func generate(tier string, r *rng.R) []fw.Case {
 	// slow ones first: they mostly sleep, the workers overlap them with everything else
 	cs = append(cs, slowCases(r.Fork(), nSlow)...)
 	cs = append(cs, deployCases(r.Fork(), nDeploy)...)
+	cs = append(cs, repairedCases()...)
 	cs = append(cs, exhaustiveFast()...)
 	for i := 0; i < nWalk; i++ {
 		cs = append(cs, randomWalk(r.Fork(), maxSteps))
@@ -342,8 +382,8 @@ func shrink(in string) []string {
 
 func init() {
 	fw.Register(&fw.Property{
-		ID:         "C02",
-		Generate:   generate,
+		ID:       "C02",
+		Generate: generate,
 		RunImpl: func(in string) (string, error) {
 			obs, err := runScenario(in)
 			if err != nil {
@@ -357,7 +397,8 @@ func init() {
 			"(CONFIGURE inside NewEnvironment, START, STOP, RESET, CONFIGURE through ControlEnvironment) — exhaustive; " +
 			"(b) random legal walks of up to 6 (thorough: 9) requests over 1..4 tasks on 1..2 hosts, modes direct/basic/fairmq, with idle deaths of non-critical tasks; " +
 			"(c) DEPLOY cases (task dies at launch / stays staging / has no host, empty workflow, call roles only); " +
-			"(d) a handful of cases with a silent / dying / unreachable task (each waits for the core's 90 s or 120 s response timeout). " +
+			"(d) a handful of cases with a silent / dying / unreachable task (each waits for the core's 90 s or 120 s response timeout); " +
+			"(e) 8 fixed cases in the four repaired corners (commands with no target incl. CONFIGURE and a call-roles-only workflow, a lone non-critical task failing at every position, failed requests). " +
 			"non-trivial = at least one task and (two answered requests or a scripted failure); distinct by input text",
 		Shrink:  shrink,
 		Workers: 40,
